@@ -163,12 +163,14 @@ def _verus_prop(prop, tier, seed, unit_filters, meta_extra, extra_obs=None):
 
 
 def c02(tier, seed):
-    return _verus_prop("C02", tier, seed, [("layout", None, None), ("prim_types", None, None), ("packed", None, None), ("repr", None, None)], {
+    return _verus_prop("C02", tier, seed, [("layout", None, None), ("prim_types", None, None), ("packed", None, None), ("repr", None, None), ("clang_layout", None, None)], {
         "trusted_base": LAYOUT_TRUST,
         "functions_under_contract": LAYOUT_FNS + [
             "bindgen/codegen/helpers.rs: ast_ty::int_kind_rust_type, ast_ty::float_kind_rust_type (unit prim_types: fixed-width kinds get a Rust integer of the same width and sign; platform kinds the std::os::raw alias documented as equivalent; wchar_t / long double / __float128 a type of exactly the C size)",
             "bindgen/codegen/mod.rs: the `packed` representation-hint decision of CompInfo::codegen (unit repr, statement extracted by rule R18: packed(N) exactly for packed, non-opaque records whose packed is not redundant next to an explicit align)",
             "bindgen/codegen/mod.rs: the tail of CompInfo::codegen that completes size and alignment (unit layout, statements extracted by rule R18 and verified against the contracts of pad_struct / requires_explicit_align / blob): an opaque record is one blob of exactly the C size/alignment with repr(align); a struct gets the padding of the size theorem appended in place and repr(align(N)) (packed for N == 1) whenever its fields under-align; a non-Rust union is one blob of exactly the C size/alignment; and the realisation of the explicit alignment (repr(align(N)), or a leading zero-length array of a primitive whose alignment is exactly N for bit-field records with N <= 8)",
+            "bindgen/clang.rs: Cursor::offset_of_field, Type::{clang_size_of, clang_align_of, size, align, fallible_size, fallible_align, fallible_layout} (unit clang_layout: the numbers handed to the IR are libclang's 64-bit values, unchanged, for every non-negative value; negative codes are errors; the two documented work-arounds)",
+            "bindgen/codegen/mod.rs: utils::type_from_named (unit prim_types: the <stdint.h>/<stddef.h> typedef names map to the Rust primitive of the same width and signedness)",
             "bindgen/ir/comp.rs: CompInfo::already_packed (unit packed: Some(true) exactly when dropping `packed` moves no field), CompInfo::is_packed (attribute, or a member more aligned than the record, or a vtable in a 1-aligned record)"],
         "assumptions": [
             "placement theorem (saw_field_with_layout post#4) region: not packed, not a union, clang reported the field offset (multiple of 8 bits, >= running offset, multiple of the field alignment), the Rust struct built so far ends at the tracker's running offset and that is a multiple of the previous field's alignment; the Rust type of the field has the alignment clang reports",
@@ -184,13 +186,14 @@ def c02(tier, seed):
 
 
 def c10(tier, seed):
-    return _verus_prop("C10", tier, seed, [("layout", r"::(blob|Layout::known_type_for_size|Layout::for_size_internal|Layout::for_size|integer_type|bitfield_unit|Layout::new|align_to|comp_tail_layout)::", None), ("opaque", None, None),
+    return _verus_prop("C10", tier, seed, [("layout", r"::(blob|Layout::known_type_for_size|Layout::for_size_internal|Layout::for_size|integer_type|bitfield_unit|Layout::new|align_to|comp_tail_layout)::", None), ("opaque", None, None), ("vouch", None, None),
                                            ("constrain", r"::CannotDerive::constrain_type::", None), ("blocklist", None, None), ("repr", None, None)], {
         "trusted_base": LAYOUT_TRUST,
         "functions_under_contract": ["bindgen/codegen/helpers.rs: blob, integer_type, bitfield_unit", "bindgen/ir/layout.rs: Layout::{known_type_for_size, new, for_size_internal, for_size}",
                                      "bindgen/ir/item.rs: Item::is_blocklisted; <Item as IsOpaque>::is_opaque, <Type as IsOpaque>::is_opaque (unit opaque: opaque exactly by annotation, by an --opaque-type name match, or through the type: Opaque kind, opaque instantiation / compound / referenced type)",
                                      "bindgen/codegen/mod.rs: the tail of CompInfo::codegen (unit layout, statement R18): an opaque record with a known layout gets exactly one field, a blob of exactly the C size and alignment, and repr(align)",
                                      "bindgen/codegen/mod.rs: the `packed` decision of CompInfo::codegen (an opaque blob never carries `packed` next to its repr(align))",
+                                     "bindgen/ir/context.rs: the two nested closures of BindgenContext::blocklisted_type_implements_trait (unit vouch, R18): a trait is derivable through a blocklisted type only when somebody vouched - bindgen itself for the <stdint.h> names when no callback is registered, otherwise the user's callback; no name or no answer means No",
                                      "bindgen/ir/analysis/derive.rs: CannotDerive::constrain_type (first rule: an item outside the allowlisted set gets exactly what blocklisted_type_implements_trait says, before any other rule)"],
         "assumptions": [
             "blocklist test (Item::is_blocklisted == hidden || in a blocklisted file || generic item list || the list of its own kind || replaced type), with regex matching and path computation uninterpreted",
@@ -212,11 +215,12 @@ def _from_str_witnesses():
 
 def c12(tier, seed):
     units = [("gen_errors", None, None), ("layout", None, r"^(safety|decreases.*)$"), ("bf_alloc", None, r"^(safety|decreases.*)$"), ("macro_type", None, r"^safety$"),
-             ("edges", None, r"^safety$"), ("derive_gate", None, r"^safety$"), ("derives", None, r"^safety$"), ("fn_abi", None, r"^safety$"), ("constrain", None, r"^safety$"), ("prim_types", None, r"^safety$"), ("packed", None, r"^(safety|decreases.*)$"), ("blocklist", None, r"^safety$"), ("has_float", None, r"^safety$"), ("has_tp_array", None, r"^safety$"), ("has_destructor", None, r"^safety$"), ("lattice_insert", None, r"^safety$"),
-             ("lattice_constrain", r"::constrain::", r"^safety$"), ("link_name", r"::names_will_be_identical_after_mangling::", r"^safety$"), ("eval_int", None, r"^safety$"), ("bf_unit_start", None, r"^safety$")]
+             ("edges", None, r"^safety$"), ("derive_gate", None, r"^safety$"), ("derives", None, r"^safety$"), ("fn_abi", None, r"^(safety|post#3)$"), ("constrain", None, r"^safety$"), ("prim_types", None, r"^safety$"), ("packed", None, r"^(safety|decreases.*)$"), ("blocklist", None, r"^safety$"), ("has_float", None, r"^safety$"), ("has_tp_array", None, r"^safety$"), ("has_destructor", None, r"^safety$"), ("lattice_insert", None, r"^safety$"),
+             ("lattice_constrain", r"::constrain::", r"^safety$"), ("link_name", r"::names_will_be_identical_after_mangling::", r"^safety$"), ("eval_int", None, r"^safety$"), ("bf_unit_start", None, r"^safety$"), ("char_macro", None, r"^safety$"), ("clang_layout", None, r"^safety$"), ("traversal", None, r"^safety$"), ("trace_impls", None, r"^safety$")]
     return _verus_prop("C12", tier, seed, units, {
         "trusted_base": LAYOUT_TRUST + ["alloc::fmt::format stubbed in the from_str witness harnesses (message text irrelevant)"],
         "functions_under_contract": ["bindgen/lib.rs: the input-path checks of Bindings::generate (missing -> NotExist, directory -> FolderAsHeader, unreadable -> InsufficientPermissions; file system uninterpreted) and the per-diagnostic step of parse() (severity Error or Fatal -> ClangDiagnostic error) -- blocks extracted by rule R18, unit gen_errors"] + LAYOUT_FNS + ["bindgen/ir/comp.rs: bitfields_to_allocation_units (no-clang-offset mode)", "and the functions of units macro_type, edges, derive_gate, derives, fn_abi (see C05, C07-C09, C14)",
+                                     "bindgen/ir/function.rs: FunctionSig::abi never accepts an ABI that cannot be printed (ClangAbi::Unknown -> UnsupportedAbi; found and repaired F11: Function::codegen and <ClangAbi as ToTokens> panicked on it); bindgen/ir/var.rs: the character-literal arm of Var::parse (found and repaired F10)",
                                      "bindgen/codegen/mod.rs: utils::names_will_be_identical_after_mangling (every slice index / range in bounds, for all name lengths); bindgen/ir/analysis/{has_vtable,sizedness}.rs: constrain (the two unreachable!() arms of SizednessAnalysis::constrain are unreachable given 'TypeKind::Opaque types are opaque' and 'no UnresolvedTypeRef after parsing'); clang::EvalResult::as_int; the bit-field unit-start closure (no underflow given offset_into_unit <= offset)"],
         "assumptions": [
             "error values: the two specific-error mechanisms of the property (input path, clang diagnostics) as postconditions over an uninterpreted file system / libclang",
@@ -250,22 +254,25 @@ def c04(tier, seed):
 
 
 def c05(tier, seed):
-    return _verus_prop("C05", tier, seed, [("macro_type", None, None), ("eval_int", None, None)], {
+    return _verus_prop("C05", tier, seed, [("macro_type", None, None), ("eval_int", None, None), ("char_macro", None, None)], {
         "trusted_base": ["extraction rules R1-R11; env/macro_type_env.rs: uninterpreted option reads; assume_specification for i64::from(u8|u16|u32) (lossless widening)",
                          "C-model table kind_bits/kind_signed written from the kinds' names (contracts/macro_type.py)",
                          "env/eval_int_env.rs: each libclang evaluator entry point is a distinct uninterpreted function of the result handle (rule R20: `unsafe { f(x) }` -> `{ f(x) }`, FFI functions are safe stubs); an out-of-range `u64 as i64` cast is the same (unspecified but fixed) function on both sides of the contract"],
         "functions_under_contract": ["bindgen/ir/var.rs: default_macro_constant_type", "bindgen/ir/int.rs: IntKind::is_signed, IntKind::known_size",
-                                     "bindgen/clang.rs: EvalResult::kind, EvalResult::as_int (which libclang getter supplies the value of a const initialiser / fallback macro)"],
+                                     "bindgen/clang.rs: EvalResult::kind, EvalResult::as_int (which libclang getter supplies the value of a const initialiser / fallback macro); Cursor::enum_val_signed / enum_val_unsigned / enum_val_boolean (enumerator values: the getter matching the signedness)",
+                                     "bindgen/ir/var.rs: the character-literal arm of Var::parse (unit char_macro, block R18): the constant is the literal's byte value as u8; an escape that does not fit is omitted (found and repaired F10: it panicked)",
+                                     "bindgen/codegen/mod.rs: the integer-literal arm of <Var as CodeGenerator>::codegen (block, R18): the literal denotes the value in the signedness of the variable's C type"],
         "assumptions": ["all i64 macro values, both option reads uninterpreted: the chosen kind holds the value, has the sign the property demands, is the narrowest such kind under fit-macro-constant-types and 32/64 bit otherwise"],
-        "unverified": ["cexpr macro evaluation, libclang's evaluator itself, EvalResult::new, the clang-macro-fallback plumbing; signed/unsigned literal branch in Var::codegen; Enum::codegen repr translation and EnumBuilder; proc_macro2::Literal printing"],
+        "unverified": ["cexpr macro evaluation, libclang's evaluator itself, EvalResult::new, the clang-macro-fallback plumbing; Enum::from_ty's choice between the signed and unsigned getter; Enum::codegen repr translation and EnumBuilder; float_expr; proc_macro2::Literal printing"],
     })
 
 
 def c06(tier, seed):
-    return _verus_prop("C06", tier, seed, [("layout_tests", None, None)], {
+    return _verus_prop("C06", tier, seed, [("layout_tests", None, None), ("clang_layout", None, None)], {
         "trusted_base": ["extraction rules incl. R18 (closure and statement extraction) and span substitutions; env/layout_tests_env.rs: each assertion template (const-block / #[test] fn, offset_of! / addr_of! form) is an env constructor that records WHAT it asserts (field, number); message strings irrelevant",
                          "libclang's numbers (record size/alignment, field bit offsets) are the C compiler's for the selected target"],
-        "functions_under_contract": ["bindgen/codegen/mod.rs: the per-member offset-assertion generator (filter_map closure) and the layout-assertion block of <CompInfo as CodeGenerator>::codegen (both extracted by rule R18); <TemplateInstantiation as CodeGenerator>::codegen (whole function)"],
+        "functions_under_contract": ["bindgen/clang.rs: Cursor::offset_of_field and Type::fallible_{size,align,layout} (unit clang_layout: the asserted numbers are libclang's, without truncation)",
+                                     "bindgen/codegen/mod.rs: the per-member offset-assertion generator (filter_map closure) and the layout-assertion block of <CompInfo as CodeGenerator>::codegen (both extracted by rule R18); <TemplateInstantiation as CodeGenerator>::codegen (whole function)"],
         "assumptions": [
             "for structs/unions generated by CompInfo::codegen: with layout tests on, a known layout and no forward declaration exactly one assertion item is emitted; it asserts the size and the alignment libclang reported and embeds one offset assertion for every named data member with a known offset (= clang's bit offset / 8), none for bit-field units, none at all for opaque types; with layout tests off, nothing is emitted",
             "template instantiations: a size+alignment assertion (libclang's numbers) is emitted exactly when layout tests are on, the instantiation is not opaque, uses no unbound template parameter and has a layout",
